@@ -42,11 +42,14 @@ def main():
     ap.add_argument("--props")
     ap.add_argument("--tier", default="quick")
     ap.add_argument("--skip-validate", action="store_true")
+    ap.add_argument("--root", default="/verif/seeded",
+                    help="/verif/benign for the behaviour-preserving changes (the checks must stay silent)")
     a = ap.parse_args()
-    d = f"/verif/seeded/{a.sid}"
+    d = f"{a.root}/{a.sid}"
     meta = json.load(open(f"{d}/meta.json"))
     props = a.props.split(",") if a.props else [meta["property"]]
-    wt = f"/tmp/wt_seed_{a.sid}"
+    tag = "b_" if a.root.endswith("benign") else ""
+    wt = f"/tmp/wt_seed_{tag}{a.sid}"
     subprocess.run(["git", "-C", "/repo", "worktree", "remove", "--force", wt],
                    stdout=subprocess.DEVNULL, stderr=subprocess.DEVNULL)
     rc, out, _ = sh(["git", "-C", "/repo", "worktree", "add", "--detach", wt, "HEAD"])
@@ -54,7 +57,7 @@ def main():
         print(out)
         return 2
     # run the checks from a snapshot of /verif, so that editing the harness meanwhile cannot disturb them
-    snap = f"/tmp/vsnap_{a.sid}"
+    snap = f"/tmp/vsnap_{tag}{a.sid}"
     shutil.rmtree(snap, ignore_errors=True)
     subprocess.run(["rsync", "-a", "--exclude", "_work", "--exclude", "seeded", "--exclude", "replays",
                     "--exclude", "evidence", "--exclude", ".git", "/verif/", snap + "/"], check=True)
@@ -80,7 +83,10 @@ def main():
             res["demo_on_repo_exit"] = rc0
             res["demo_on_mutant_exit"] = rc1
             res["demo_on_mutant_tail"] = out1.strip()[-400:]
-            res["valid"] = bool(res["tests_pass"] and rc0 == 0 and rc1 != 0)
+            if a.root.endswith("benign"):       # a behaviour-preserving change: the demo passes on both trees
+                res["valid"] = bool(res["tests_pass"] and rc0 == 0 and rc1 == 0)
+            else:
+                res["valid"] = bool(res["tests_pass"] and rc0 == 0 and rc1 != 0)
             print(f"[{a.sid}] tests: {res['tests_with_mutant']} | demo repo={rc0} mutant={rc1} | valid={res['valid']}")
         checks = {}
         for p in props:
